@@ -229,6 +229,35 @@ func FilterRuleToIPVersion(ipVersion uint8, pRule *proto.Rule) *proto.Rule {
 	return ruleCopy
 }
 
+var protocolNumbers = map[string]int32{
+	"tcp":     6,
+	"udp":     17,
+	"icmp":    1,
+	"icmpv6":  58,
+	"sctp":    132,
+	"udplite": 136,
+}
+
+// sameProtocol returns true if the two protocols, given by name or number, are the same protocol.
+func sameProtocol(a, b *proto.Protocol) bool {
+	num := func(p *proto.Protocol) (int32, string) {
+		switch v := p.NumberOrName.(type) {
+		case *proto.Protocol_Number:
+			return v.Number, ""
+		case *proto.Protocol_Name:
+			name := strings.ToLower(v.Name)
+			if n, ok := protocolNumbers[name]; ok {
+				return n, ""
+			}
+			return -1, name
+		}
+		return -1, ""
+	}
+	aNum, aName := num(a)
+	bNum, bName := num(b)
+	return aNum == bNum && aName == bName
+}
+
 func (r *DefaultRuleRenderer) ProtoRuleToIptablesRules(
 	pRule *proto.Rule,
 	ipVersion uint8,
@@ -242,6 +271,15 @@ func (r *DefaultRuleRenderer) ProtoRuleToIptablesRules(
 	ruleCopy := FilterRuleToIPVersion(ipVersion, pRule)
 	if ruleCopy == nil {
 		return nil
+	}
+	if ruleCopy.Protocol != nil && ruleCopy.NotProtocol != nil {
+		// iptables only accepts one protocol match per rule.
+		if sameProtocol(ruleCopy.Protocol, ruleCopy.NotProtocol) {
+			logrus.WithField("rule", pRule).Debug("Skipping rule; protocol and notProtocol exclude each other.")
+			return nil
+		}
+		// The positive match already excludes the negated protocol.
+		ruleCopy.NotProtocol = nil
 	}
 	// There are a few areas where our data model doesn't fit with iptables, requiring us to
 	// render multiple iptables rules for one of our rules:
